@@ -234,7 +234,8 @@ Definition add_log (s : sdb) (l : Z) : sdb := set_logs (push s ELog) (l :: logs 
 
 Definition add_addr_al (s : sdb) (a : addr) : sdb :=
   if al_addr s a then s
-  else push (set_al s (upd (al_addr s) a true) (al_slot s)) (EAlAddr a).
+  else (* addresses[a] = -1: present, no slot map *)
+    push (set_al s (upd (al_addr s) a true) (upd (al_slot s) a (fun _ => false))) (EAlAddr a).
 
 Definition slot_present (s : sdb) (a : addr) (k : key) : bool := al_addr s a && al_slot s a k.
 
